@@ -140,8 +140,12 @@ def h_array_input(typecode, dtype_ok, dtype_bad):
         w = array.array(typecode).itemsize * 8
         signed = typecode.islower()
         lo, hi = (-(1 << (w - 1)), (1 << (w - 1)) - 1) if signed else (0, (1 << w) - 1)
-        v0 = K.choice('v0', sorted(set([lo, lo + 1, 0, 1, hi - 1, hi] + ([-1] if signed else []))))
-        v1 = K.choice('v1', [0, hi, lo])
+        if typecode in 'fd':
+            v0 = K.choice('v0', [0.0, 1.5, -2.0, float('inf'), 1e-40 if typecode == 'd' else 2.0 ** -140])
+            v1 = K.choice('v1', [0.0, -0.5])
+        else:
+            v0 = K.choice('v0', sorted(set([lo, lo + 1, 0, 1, hi - 1, hi] + ([-1] if signed else []))))
+            v1 = K.choice('v1', [0, hi, lo])
         src = K.untraced(lambda: array.array(typecode, [v0, v1]))
         r = call(lambda: bitstring.Array(dtype_ok, src))
         if not r.ok:
@@ -155,7 +159,7 @@ def h_array_input(typecode, dtype_ok, dtype_bad):
                 return K.fail('Array accepted array.array input of a different kind or width', dtype=bad, typecode=typecode)
             if not isinstance(rb.exc, (ValueError, TypeError)):
                 return K.fail('unexpected exception for a mismatching array.array', exc=rb.excname)
-            eqr = call(lambda: bitstring.Array(bad, [0, 0] if not bad.startswith('f') else [0.0, 0.0]).equals(src))
+            eqr = call(lambda: bitstring.Array(bad, [0, 0] if 'f' not in bad and 'd' not in bad else [0.0, 0.0]).equals(src))
             if eqr.ok and eqr.value and (v0, v1) != (0, 0):
                 return K.fail('equals() true for a different kind/width', dtype=bad)
         return True
@@ -249,7 +253,12 @@ def conditions(tier):
     for fmt, codes in [('>bH', 'bH'), ('<hBq', 'hBq'), ('=Hb', 'Hb'), ('@bH', 'bH'), ('@BB', 'BB'), ('>2hB', 'hhB')]:
         add(f'C18.struct-mixed[{fmt}]', h_struct_mixed(fmt, codes), 'every value tuple over the full ranges', prefix=fmt[0], code='mixed', fmt=fmt)
     ne = 'le' if LITTLE else 'be'
-    for typecode, ok, bad in [('h', '=h', ['=H', '=b', '=i', '>h' if LITTLE else '<h']), ('B', '=B', ['=b', '=H']), ('i', f'int{ne}32', ['=I', '=h', '=q']), ('H', f'uint{ne}16', ['=h', '=I'])]:
+    other = '>' if LITTLE else '<'
+    lw = array.array('l').itemsize * 8      # 'l'/'L' are 8 bytes on LP64 platforms and 4 elsewhere: the width that matters is the array's own
+    for typecode, ok, bad in [('h', '=h', ['=H', '=b', '=i', other + 'h']), ('B', '=B', ['=b', '=H']), ('i', f'int{ne}32', ['=I', '=h', '=q']), ('H', f'uint{ne}16', ['=h', '=I', other + 'H']),
+                              ('b', 'int8', ['=B', '=h']), ('I', f'uint{ne}32', ['=i', '=H', other + 'I']), ('q', f'int{ne}64', ['=Q', '=i', other + 'q']), ('Q', f'uint{ne}64', ['=q', '=I']),
+                              ('l', f'int{ne}{lw}', [f'int{ne}{96 - lw}', f'uint{ne}{lw}']), ('L', f'uint{ne}{lw}', [f'uint{ne}{96 - lw}', f'int{ne}{lw}']),
+                              ('f', f'float{ne}32', ['=d', '=i', other + 'f', f'uint{ne}32']), ('d', f'float{ne}64', ['=f', '=q', other + 'd'])]:
         add(f'C18.array-input[{typecode}]', h_array_input(typecode, ok, bad), 'solver-enumerated boundary values (0, +-1, min, max)', typecode=typecode)
     for nb in ([1, 2, 3] if q else [1, 2, 3, 4, 8]):
         for kind in ('uint', 'int'):
